@@ -68,9 +68,9 @@ def _entrypoints(group):
     return []
 
 
-def _cls_for(i, n, failing, eager):
+def _cls_for(i, n, failing, eager, empty_pool=False):
     if i == n - 1:
-        return P.BoomPool if failing else P.ThePool
+        return P.BoomPool if failing else (P.EmptyPool if empty_pool else P.ThePool)
     if i == 0:
         return P.BoomCtl if failing else P.Ctl
     if failing:
@@ -153,7 +153,7 @@ def _spec(ctx, n, rich=True):
     for i in range(n):
         form = FORMS[ctx.choice("form%d" % i, len(FORMS))]
         eager = ctx.flag("eager%d" % i) if i == 1 and n > 2 else False
-        cls = _cls_for(i, n, fail == i, eager)
+        cls = _cls_for(i, n, fail == i, eager, empty_pool=(i == n - 1 and fail != i and n > 1 and ctx.flag("empty_pool")))
         if form == "tag_bare":
             names = ()
         elif form == "tag_sequence":
